@@ -105,6 +105,17 @@ impl IpDefragBuf {
                     conflicting_end: end,
                 });
             }
+        } else if false == more_fragments {
+            // the end is not allowed to be in front of already received data
+            // (otherwise the accepted fragments would depend on the arrival order)
+            if let Some(received_end) = self.sections.iter().map(|s| s.end).max() {
+                if end < received_end {
+                    return Err(ConflictingEnd {
+                        previous_end: received_end,
+                        conflicting_end: end,
+                    });
+                }
+            }
         }
 
         // get enough memory to store the de-fragmented
